@@ -84,7 +84,8 @@ fn embeddings(text: &str, off: usize) -> Vec<String> {
     let cs: Vec<char> = text.chars().collect();
     let rest: String = cs[off.min(cs.len())..].iter().collect();
     let mut v = vec![text.to_string(), rest.clone()];
-    for pre in ["#", "a #", "- ", "k: ", "k:", "-", "\"", "'", "[", "[a", "a", "a\n", "\"a\n", "k: |\n b\n", "%FOO ", "%YAML 1.2", "--- ", "? ", "&x ", "!t ", "k: a\n ", "- |\n ", "{a: b", "k: >\n x\n\n"] {
+    for pre in ["#", "a #", "- ", "k: ", "k:", "-", "\"", "'", "[", "[a", "a", "a\n", "\"a\n", "k: |\n b\n", "%FOO ", "%YAML 1.2", "--- ", "? ", "&x ", "!t ", "k: a\n ", "- |\n ", "{a: b", "k: >\n x\n\n",
+                "%", "%YAML", "%YAML ", "%TAG !e!", "%TAG !e! ", "%TAG !", "!", "- !", "- !e", "&", "- &", "*", "%F"] {
         for suf in ["", "\n", "\nb: c\n", "\n--- a\n", "]\n", "\"\n", " x\n"] {
             v.push(format!("{pre}{rest}{suf}"));
             if off > 0 {
